@@ -719,3 +719,132 @@ Proof.
   change (base_of (set_pcm (set_dec s _) _) _) with (base_of s (v_link s)).
   repeat split; try assumption; try lia.
 Qed.
+
+(* ---- page seek, byte seek and the first fetch after landing, half rate ---- *)
+Lemma landed_fetch_h (tail : list page) s1 pos : LandedH tail s1 pos ->
+  let s2 := make_ready s1 in
+  let e := v_pcm s1 - base_of s1 (v_link s1) in
+  exists p r w s0,
+    stream tail s2 = p :: r /\ pk_W p = Some w /\
+    fetch (fetch_fuel s2) s2 = (1, feed s0 p w) /\
+    SyncInvH (feed s0 p w) e /\ dec_pcmout (v_dec (feed s0 p w)) = 0 /\ v_pcm (feed s0 p w) = v_pcm s1 /\
+    IntactS (cur_link s1) false e w r.
+Proof.
+  intros Hland.
+  destruct (landed_ready_h tail s1 pos Hland) as (Hc2 & Hpl2 & Hd2 & Hst2 & Hr2 & Hq2).
+  cbv zeta. set (s2 := make_ready s1) in *.
+  destruct Hd2 as (He0 & Hret & Hph).
+  assert (cur_link s2 = cur_link s1 /\ base_of s2 (v_link s2) = base_of s1 (v_link s1) /\ v_pcm s2 = v_pcm s1) as (L1 & L2 & L3).
+  { unfold s2, make_ready. destruct (v_rs s1 =? STREAMSET); repeat split; reflexivity. }
+  rewrite L1, L2, L3 in Hph. rewrite L2, L3 in He0.
+  set (e := v_pcm s1 - base_of s1 (v_link s1)) in *.
+  destruct Hph as [(_ & Hseq & Hin2 & Hre2 & _)|(Hlb & _)].
+  2: { exfalso. destruct Hc2 as (_ & _ & B0 & B1 & _). rewrite L1 in B0, B1. unfold blocksize in Hlb. destruct (d_W (v_dec s2)); lia. }
+  destruct (stream tail s2) as [|p r] eqn:Est; [exfalso; exact Hre2|].
+  cbn [IntactS] in Hin2. destruct Hin2 as (w & Hw & Heos & Hg & Hrest).
+  assert (Forall audio (stream tail s2)) as Hau.
+  { rewrite Est. constructor; [exists w; exact Hw|]. eapply intact_audio. exact Hrest. }
+  pose proof Hc2 as (_ & Hrs2 & _).
+  destruct (fetch_plain tail (fetch_fuel s2) s2 p r Hrs2 Hpl2 Hau) as (w' & s0 & Hw' & Hfe & Hv0 & Hst0 & Hpl0);
+    [unfold fetch_fuel; destruct (stream_bound tail s2 Hpl2) as [B1 B2]; lia|exact Est|].
+  rewrite Hw in Hw'. injection Hw' as <-.
+  assert (CoreH s0) as Hc0 by (eapply view_core_h; [symmetry; exact Hv0|exact Hc2]).
+  assert (PreSync s2 e p w) as Hps.
+  { unfold PreSync. rewrite L1, L2, L3. repeat split; try assumption; try (unfold e; lia). }
+  assert (PreSync s0 e p w) as Hps0 by (eapply view_presync; [symmetry; exact Hv0|exact Hps]).
+  destruct (feed_presync_h s0 e p w Hc0 Hps0) as (Hsync & Hout & HW).
+  exists p, r, w, s0. split; [reflexivity|]. split; [exact Hw|]. split; [exact Hfe|]. split; [exact Hsync|]. split; [exact Hout|].
+  split; [|exact Hrest].
+  destruct Hsync as (_ & _ & _ & _ & _ & _ & _ & _ & _ & _ & S9 & _).
+  destruct (link_feed s0 p w) as (_ & L4). destruct (view_link _ _ Hv0) as (_ & L5 & _).
+  rewrite S9, L4, L5, L2. unfold e. lia.
+Qed.
+
+Theorem raw_seek_truthful_h (tail : list page) s pos pg (r1 : list page) e0 :
+  let l := cur_link s in
+  let pk := if pg_cont pg then tl (pg_pkts pg) else pg_pkts pg in
+  v_hs s = 1 -> v_rs s >= STREAMSET -> v_rs s <= INITSET ->
+  0 <= pos <= file_end s -> li_off l <= pos < li_end l ->
+  pages_from (v_pages s) pos = pg :: r1 ++ tail ->
+  plain (v_serial s) pg -> pg_eos pg = false -> Forall (plain (v_serial s)) r1 ->
+  0 < li_bs0 l -> 0 < li_bs1 l -> li_bs0 l <= li_bs1 l -> li_bs0 l mod 8 = 0 -> li_bs1 l mod 8 = 0 -> 0 <= li_init l ->
+  0 <= e0 -> IntactS l true e0 false (pk ++ flat_map pg_pkts r1) -> scan_acc l 0 0 pk <> None ->
+  let s' := snd (raw_seek s pos) in
+  fst (raw_seek s pos) = 0 /\ v_pcm s' = base_of s (v_link s) + e0 /\ LandedH tail s' (v_pcm s').
+Proof.
+  intros l pk Hhs Hrs1 Hrs2 Hpos Hin_link Hpages [Hser Hbos] Heos Hplain Hb0 Hb1 Hb01 Hm0 Hm1 Hi He0 Hint Hsome.
+  unfold raw_seek.
+  assert ((v_rs s <? OPENED) = false) as -> by (unfold OPENED, STREAMSET in *; lia).
+  assert (((pos <? 0) || (pos >? file_end s)) = false) as -> by lia.
+  assert (((v_rs s >=? STREAMSET) && ((pos <? li_off (cur_link s)) || (pos >=? li_end (cur_link s)))) = false) as -> by (fold l; lia).
+  cbv zeta. cbn [fst snd].
+  set (s2 := set_pcm (os_reset s) (-1)).
+  set (s3 := set_dec s2 (dec_restart (cur_cfg s2) (v_dec s2))).
+  set (s4 := set_rem s3 (pages_from (v_pages s3) pos)).
+  assert (v_rem s4 = pg :: r1 ++ tail) as Hrem4 by (unfold s4; cbn [v_rem set_rem]; exact Hpages).
+  rewrite Hrem4.
+  set (fuel := (length (pg :: r1 ++ tail) + pkt_count (pg :: r1 ++ tail) + 2)%nat).
+  destruct (scan_acc l 0 0 pk) as [[a g]|] eqn:Esc; [|congruence].
+  assert (exists p0 r0, pk = p0 :: r0) as (p0 & r0 & Hpk) by (destruct pk as [|p0 r0]; [discriminate|eauto]).
+  (* first iteration: the work queue is empty, the landing page is fetched into both stream states *)
+  assert (fuel = S (length (r1 ++ tail) + pkt_count (pg :: r1 ++ tail) + 2))%nat as Hfu by (unfold fuel; cbn [length]; lia).
+  rewrite Hfu. cbn [raw_scan]. cbv zeta. cbn [r_wq r_last].
+  assert ((v_rs s4 >=? STREAMSET) = true) as -> by (unfold s4, s3, s2; cbn; lia).
+  cbn [Z.eqb negb]. rewrite Hrem4.
+  set (s5 := set_rem s4 (r1 ++ tail)).
+  assert (v_serial s5 = v_serial s /\ v_rs s5 = v_rs s /\ v_fresh s5 = true /\ v_q s5 = [] /\ v_pno s5 = 0) as (Q1 & Q2 & Q3 & Q4 & Q5) by (repeat split; reflexivity).
+  rewrite Q1, Q2, Hser, Z.eqb_refl. cbn [negb andb]. rewrite andb_false_r.
+  cbn [andb]. rewrite Q2. assert ((v_rs s <? STREAMSET) = false) as -> by lia.
+  set (ff := pg_off pg <=? li_dataoff (cur_link s5)).
+  (* both queues receive the packets that start on this page *)
+  assert (os_pagein s5 pg = set_q s5 pk false 0) as Hpi.
+  { unfold os_pagein. rewrite Q1, Hser, Z.eqb_refl, Q3, Q4. cbn [negb andb app]. unfold pk in *.
+    destruct (pg_cont pg).
+    - destruct (pg_pkts pg) as [|x y]; [cbn in Hpk; discriminate|]. cbn [tl]. rewrite Q5. reflexivity.
+    - rewrite Q5. reflexivity. }
+  rewrite Hpi.
+  set (s6 := set_q s5 pk false 0).
+  assert (work_pagein {| r_last := 0; r_acc := 0; r_lastflag := false; r_firstflag := false; r_wq := []; r_wfresh := true |} pg (pg_eos pg) ff =
+          mk_r 0 0 false ff pk (if pg_cont pg then (match pg_pkts pg with [] => true | _ => false end) else false)) as Hwp.
+  { unfold work_pagein, mk_r. cbn [r_last r_acc r_wq r_wfresh andb app]. rewrite Heos. unfold pk. reflexivity. }
+  rewrite Hwp.
+  assert (cur_link s6 = l /\ base_of s6 (v_link s6) = base_of s (v_link s)) as [L6 B6] by (split; reflexivity).
+  rewrite (raw_scan_packets pk _ s6 0 0 false ff _ a g); try (rewrite L6; assumption); try (left; reflexivity); try reflexivity.
+  2: { assert (length pk <= length (pg_pkts pg))%nat by (unfold pk; destruct (pg_cont pg); [destruct (pg_pkts pg); cbn; lia|lia]). cbn [pkt_count]. lia. }
+  2: { unfold s6, s5, s4, s3, s2. cbn. lia. }
+  rewrite L6, B6.
+  destruct (scan_intact_first l Hb0 Hb1 ltac:(lia) ltac:(lia) pk e0 a g) as [A B].
+  { eapply IntactS_app_l. exact Hint. }
+  { exact Esc. }
+  assert ((let g1 := (let g0 := g - li_init l in if g0 <? 0 then 0 else g0) - a in if g1 <? 0 then 0 else g1) = e0) as Hval.
+  { cbv zeta. destruct (g - li_init l <? 0) eqn:E1; [lia|]. destruct (g - li_init l - a <? 0) eqn:E2; lia. }
+  rewrite Hval.
+  set (s' := set_pcm s6 (e0 + base_of s (v_link s))).
+  split; [reflexivity|]. split; [cbn; lia|].
+  (* the landing condition *)
+  assert (rem1 tail s' = r1) as Hr1 by (apply rem1_app; reflexivity).
+  assert (stream tail s' = pk ++ flat_map pg_pkts r1) as Hst by (unfold stream; rewrite Hr1; reflexivity).
+  unfold LandedH. change (cur_link s') with l. change (base_of s' (v_link s')) with (base_of s (v_link s)).
+  change (v_pcm s') with (e0 + base_of s (v_link s)). rewrite Hst.
+  replace (e0 + base_of s (v_link s) - base_of s (v_link s)) with e0 by lia.
+  split; [exact Hhs|]. split.
+  { change (v_rs s') with (v_rs s). unfold STREAMSET, INITSET in *. assert (v_rs s = 3 \/ v_rs s = 4) as [H|H] by lia; [left; exact H|right].
+    split; [exact H|]. split; reflexivity. }
+  repeat (split; [assumption|]).
+  split; [cbn; lia|]. split.
+  { unfold PlainRem. rewrite Hr1. split; [reflexivity|]. split; [reflexivity|]. exact Hplain. }
+  split; [exact He0|]. split; [exact Hint|]. split; [|lia].
+  rewrite Hpk in *. cbn [app IntactS Reaches] in *. destruct Hint as (w & Hw & _). rewrite Hw. left. lia.
+Qed.
+
+(* page seek at half rate *)
+Theorem pcm_seek_page_truthful_h (tail : list page) s pos s1 :
+  v_hs s = 1 -> OPENED <= v_rs s <= INITSET ->
+  pcm_seek_page s pos = (0, s1) -> fallback s pos = false -> FileIntactH tail s1 pos ->
+  v_pcm s1 <= pos /\ LandedH tail s1 pos.
+Proof.
+  intros Hhs Hrs Hpage Hfb (Hb0 & Hb1 & Hb01 & Hm0 & Hm1 & Hi & Hpl & Hin & Hre).
+  destruct (page_seek_facts s pos s1 Hpage Hfb Hrs) as (F1 & F2 & F3 & F4 & F5).
+  split; [exact F5|].
+  unfold LandedH. rewrite F1. split; [exact Hhs|]. split; [exact F2|]. repeat (split; [assumption|]). split; [lia|]. split; [exact Hin|]. split; [exact Hre|lia].
+Qed.
